@@ -23,8 +23,14 @@ EXTENDS Integers, Sequences, FiniteSets
 (* s.ct = ms to wait for the delivery confirmation (both read from the tree by the harness)               *)
 
 NewReq(kind, dst, t) == [kind |-> kind, dst |-> dst, tag |-> 0 - 1, st |-> "started", enq |-> 0, lastEnq |-> "none",
-                         tEnq |-> t, tAcc |-> 0 - 1, okConf |-> FALSE, badConf |-> FALSE, t0 |-> t]
-SInitWith(delays, ct) == [reqs |-> <<>>, setup |-> 0 - 1, delays |-> delays, ct |-> ct]
+                         tEnq |-> t, tAcc |-> 0 - 1, okConf |-> FALSE, badConf |-> FALSE, t0 |-> t, su |-> FALSE]
+(* s.n counts the set-up and enqueue commands the NCP has seen; s.last[x] = number of the last one that concerned target x *)
+Touch(s, x) == [s EXCEPT !.n = s.n + 1,
+                         !.last = [y \in (DOMAIN s.last) \cup {x} |-> IF y = x THEN s.n + 1 ELSE s.last[y]]]
+LastSetup(s, x) == IF x \in DOMAIN s.last THEN s.last[x] ELSE 0
+(* some command concerning another target reached the NCP after the last command concerning x *)
+OtherSince(s, x) == \E y \in DOMAIN s.last : y # x /\ s.last[y] > LastSetup(s, x)
+SInitWith(delays, ct) == [reqs |-> <<>>, setup |-> 0 - 1, delays |-> delays, ct |-> ct, n |-> 0, last |-> <<>>]
 MaxEnq(s) == Len(s.delays)
 
 Has(s, r) == r \in DOMAIN s.reqs
@@ -34,12 +40,15 @@ Start(s, r, kind, dst, t) == Put(s, r, NewReq(kind, dst, t))
 
 (* a set-up command for target x reaches the NCP: no other target's block may be open *)
 SetupOk(s, x) == s.setup \in {0 - 1, x}
-Setup(s, x) == [s EXCEPT !.setup = x]
+Setup(s, x) == [Touch(s, x) EXCEPT !.setup = x]
 
 (* the enqueue command of request r reaches the NCP (tag as seen on the wire), answered with class `ans` at time t *)
 EnqueueOk(s, r, x, tag, t) ==
     /\ Has(s, r) /\ s.reqs[r].st = "started"
     /\ s.setup \in {0 - 1, x}                                   \* closes the block of its own target only
+    (* a request that was given set-up commands is not sent with ANOTHER request's set-up or send between its own set-up and its   *)
+    (* send: a retried enqueue without an open block of its own is only acceptable if nothing concerning another target came since *)
+    /\ (s.setup = 0 - 1 /\ s.reqs[r].su) => ~OtherSince(s, x)
     /\ s.reqs[r].dst = x
     /\ s.reqs[r].tag \in {0 - 1, tag}                           \* the same tag on every attempt
     /\ s.reqs[r].enq < MaxEnq(s)                                   \* bounded number of attempts
@@ -47,9 +56,10 @@ EnqueueOk(s, r, x, tag, t) ==
     /\ (s.reqs[r].lastEnq = "busy" => t >= s.reqs[r].tEnq + s.delays[s.reqs[r].enq])   \* spaced retries
 Enqueue(s, r, tag, ans, t) ==
     LET q == s.reqs[r] IN
-    [Put(s, r, [q EXCEPT !.tag = tag, !.enq = q.enq + 1, !.lastEnq = ans, !.tEnq = t,
-                         !.st = IF ans = "ok" THEN "enqueued" ELSE "started",
-                         !.tAcc = IF ans = "ok" THEN t ELSE q.tAcc])
+    [Touch(Put(s, r, [q EXCEPT !.tag = tag, !.enq = q.enq + 1, !.lastEnq = ans, !.tEnq = t,
+                               !.st = IF ans = "ok" THEN "enqueued" ELSE "started",
+                               !.tAcc = IF ans = "ok" THEN t ELSE q.tAcc,
+                               !.su = @ \/ s.setup = q.dst]), q.dst)       \* su: this request has been given set-up commands
      EXCEPT !.setup = 0 - 1]
 
 (* a delivery confirmation arrives: it concerns exactly the requests with that destination and tag that are in progress *)
